@@ -18,9 +18,13 @@ PID = 'C01'
 RULE = ('cases = (package, extinction law, A_V range, sources) drawn from the quantifier of C01; a case is '
         'non-trivial when at least one model is fitted with >=2 fitted bands of distinct extinction coefficient; '
         'distinct = distinct canonical hash of the generated inputs')
+COND_MAX = 1e10
 REQUIRED_BRANCHES = ['near_grey_law', 'signal_to_noise_below_0.05', 'law_route_attrs', 'law_route_file', 'law_route_file_swapped', 'law_route_file_03', 'law_route_file_21', 'law_route_copy', 'law_route_deepcopy', 'law_route_pickle', 'source_arrays_f8', 'source_arrays_list', 'source_arrays_int', 'source_arrays_be', 'source_arrays_readonly', 'tiny_model_flux', 'same_source_object_refitted', 'wav_filter_off_grid', 'rebuilt_in_place', 'wav_filter_other_unit', 'pkg_v1_mJy', 'pkg_v1_Jy', 'pkg_cube', 'pkg_cube_memmap', 'range_end_zero', 'law_other_unit', 'clamp_low', 'clamp_high', 'interior', 'lo_eq_hi', 'limit_violated', 'limit_ok', 'flag4', 'flag0or9']
 ASSUMPTIONS = ['IEEE rounding is not modelled: comparison tolerance 1e-9 x condition number',
-               'decisions closer than 1e-7 to their threshold are compared in relaxed mode']
+               'decisions closer than 1e-7 to their threshold are compared in relaxed mode',
+               'regressions whose condition number exceeds 1e10 (nearly grey laws seen through nearly equal bands) are '
+               'non-singular in exact arithmetic but not resolved by double precision: counted as relaxed, not compared',
+               'the chi^2 tolerance includes the (A_V, scale) tolerance expressed in chi^2 (theorem C01_excess_bound)']
 N = {'quick': 160, 'thorough': 12000}
 FLAGS = [0, 1, 2, 3, 4, 9]
 
@@ -364,7 +368,22 @@ def singular(case, src):
         if f in (1, 4):
             k = np.interp(w, ext_w, ext_c, left=0., right=0.)
             ks.add(round(float(k), 12))
-    return len(ks) < 2
+    if len(ks) < 2:
+        return True
+    # non-singular in exact arithmetic, but is it in double precision?  relative determinant of the normal matrix of
+    # the fitted bands (weights as the code forms them); below 1e-10 the determinant is lost to cancellation
+    _, tab, v, wq = table_in_unit(case)
+    k = -0.4 * np.interp(wq, tab, case['tab_chi'], left=0., right=0.) / np.interp(v, tab, case['tab_chi'])
+    fl = np.array(src['flags']); F = np.array(src['flux'], float); E = np.array(src['err'], float)
+    w = np.zeros(len(fl))
+    r1 = fl == 1
+    with np.errstate(all='ignore'):
+        w[r1] = (np.log(10.) / np.abs(E[r1] / F[r1])) ** 2
+        r4 = fl == 4
+        w[r4] = 1. / E[r4] ** 2
+        m11, m12, m22 = np.sum(k * k * w), np.sum(k * -2. * w), np.sum(4. * w)
+        rel = (m11 * m22 - m12 * m12) / (m11 * m22) if m11 * m22 > 0 else 0.
+    return not (rel > 1e-10)
 
 
 def run_case(case):
@@ -439,6 +458,13 @@ def run_case(case):
                     guard = max(guard, 20. * max(dav, dres))
                 if e['margin'] < guard:
                     relaxed += 1
+                    continue
+                if e['cond'] > COND_MAX:
+                    # non-singular in exact arithmetic but beyond what double precision resolves (the normal equations
+                    # lose cond * 2^-53 > 1e-6 of relative accuracy; the determinant may cancel to 0 -> NaN): counted,
+                    # not compared.  Only the nearly grey laws get here.
+                    relaxed += 1
+                    branches.add('conditioning_beyond_double_precision')
                     continue
                 av_m = float(e['av'])
                 if lo < hi:
